@@ -180,7 +180,7 @@ func TestVerifC09CombiningFrameEnum(t *testing.T) {
 			t.Errorf("replay: %v", err)
 		}
 	}
-	if only {
+	if only || t.Failed() {
 		return
 	}
 	idx := 0
@@ -385,7 +385,7 @@ func TestVerifC09CombinerRandom(t *testing.T) {
 			t.Errorf("replay: %v", err)
 		}
 	}
-	if only {
+	if only || t.Failed() {
 		return
 	}
 	defer rec.Commit(verifC09RandName)
